@@ -87,6 +87,12 @@ func (j *JWK) UnmarshalJSON(jwkBytes []byte) error {
 
 		*j = *jwk
 	} else {
+		// jose pads or truncates the public key of an OKP key instead of rejecting a wrong size
+		if key.Kty == "OKP" && key.Crv == "Ed25519" && key.D == nil &&
+			(key.X == nil || len(key.X.data) != ed25519.PublicKeySize) {
+			return fmt.Errorf("unable to read JWK: %w", ErrInvalidKey)
+		}
+
 		var joseJWK jose.JSONWebKey
 
 		err := json.Unmarshal(jwkBytes, &joseJWK)
